@@ -6,6 +6,7 @@ package c03
 import (
 	"errors"
 	"fmt"
+	"github.com/NethermindEth/juno/db/memory"
 	"testing"
 
 	"verif/mc/chain"
@@ -75,6 +76,19 @@ func TestCheck(t *testing.T) {
 			r.Sample(map[string]any{"config": label, "states": st.States, "transitions": st.Transitions, "per_depth": st.PerDepth})
 		}
 	}
+	// deep reorgs: the BFS bound (3-5 operations) is below the six operations of "two blocks stored, both reverted, another
+	// block stored" on top of a non-empty state. That family is enumerated on its own: S (every state of depth <= 1),
+	// every branch x1,x2, two reverts, every y - on one long-lived node - then the full read sweep against the dictionary.
+	for _, newState := range []bool{false, true} {
+		for vi, vc := range versionConfigs {
+			if r.Quick() && vi != 0 && vc.name != "0.14.0->0.14.1@2" {
+				continue
+			}
+			n := deepReorgs(r, newState, vc.at, vc.name+hist.Backend(newState))
+			transitions += n
+			r.Add("deep_reorg_histories", n)
+		}
+	}
 	queries = r.Get("evaluations")
 	r.Set("states", states)
 	r.Set("transitions", transitions)
@@ -85,6 +99,94 @@ func TestCheck(t *testing.T) {
 		"in every distinct state every retained block x {by number, by hash, head} x every (contract, slot) / nonce / class hash / class / casm hash of the universe is read and compared with the dictionary state", depth))
 	r.Assume = append(r.Assume, "block alphabet of mc/chain/alphabet.go; Pedersen/Poseidon primitives trusted", "go map iteration order inside juno not controlled")
 	r.Finish()
+}
+
+// deepReorgs: see TestCheck.
+func deepReorgs(r *ev.Run, newState bool, at func(uint64) string, label string) int64 {
+	type stem struct {
+		names []string
+		chain []*chain.Entry
+	}
+	stems := []stem{{}}
+	for _, nm := range chain.Alphabet(nil, 0, at(0)) {
+		if e, err := chain.Build(nil, nm.Spec); err == nil {
+			stems = append(stems, stem{[]string{"store:" + nm.Name}, []*chain.Entry{e}})
+		}
+	}
+	type job struct {
+		st         stem
+		x1, x2, y  *chain.Entry
+		n1, n2, ny string
+	}
+	var jobs []job
+	for _, st := range stems {
+		var head *chain.Entry
+		var hs *chain.State
+		var num uint64
+		if len(st.chain) > 0 {
+			head = st.chain[len(st.chain)-1]
+			hs, num = head.State, head.Block.Number+1
+		}
+		al := chain.Alphabet(hs, num, at(num))
+		for _, a1 := range al {
+			x1, err := chain.Build(head, a1.Spec)
+			if err != nil {
+				continue
+			}
+			for _, a2 := range chain.Alphabet(x1.State, num+1, at(num+1)) {
+				x2, err := chain.Build(x1, a2.Spec)
+				if err != nil {
+					continue
+				}
+				for _, ay := range al {
+					if ay.Name == a1.Name {
+						continue
+					}
+					y, err := chain.Build(head, ay.Spec)
+					if err != nil {
+						continue
+					}
+					jobs = append(jobs, job{st, x1, x2, y, a1.Name, a2.Name, ay.Name})
+				}
+			}
+		}
+	}
+	ev.Par(len(jobs), 14, func(i int) {
+		if r.OutOfTime() {
+			r.Incomplete("deep reorgs " + label)
+			return
+		}
+		j := jobs[i]
+		d := memory.New()
+		bc := chain.NewNode(d, newState)
+		var parent *chain.Entry
+		for _, e := range j.st.chain {
+			if err := chain.StoreSync(bc, e.Fresh(parent)); err != nil {
+				return // owned by C01
+			}
+			parent = e
+		}
+		stemHead := parent
+		for _, e := range []*chain.Entry{j.x1, j.x2} {
+			if err := chain.StoreSync(bc, e.Fresh(parent)); err != nil {
+				return
+			}
+			parent = e
+		}
+		for k := 0; k < 2; k++ {
+			if err := bc.RevertHead(); err != nil {
+				return // owned by C04
+			}
+		}
+		if err := chain.StoreSync(bc, j.y.Fresh(stemHead)); err != nil {
+			return
+		}
+		n := &hist.Node{DB: d, Chain: append(append([]*chain.Entry{}, j.st.chain...), j.y),
+			Path: append(append([]string{}, j.st.names...), "store:"+j.n1, "store:"+j.n2, "revert", "revert", "store:"+j.ny)}
+		q := checkNode(r, n, bc, label+" [deep reorg]")
+		r.Add("evaluations", int64(q))
+	})
+	return int64(len(jobs))
 }
 
 var errSigner = errors.New("scripted signer failure")
